@@ -37,6 +37,10 @@ pub enum SendOutcome {
 struct ScriptLocked {
     script: VecDeque<SendOutcome>,
     sent: Vec<Vec<u8>>,
+    /// every datagram handed to the transport, with its target (dispatcher-level driver)
+    sent_to: Vec<(SocketAddr, Vec<u8>)>,
+    /// datagrams waiting to be returned by recv_from (dispatcher-level driver)
+    incoming: VecDeque<(Vec<u8>, SocketAddr)>,
     /// datagrams longer than this get EMSGSIZE (a link with a smaller MTU than configured)
     max_datagram: Option<usize>,
 }
@@ -48,6 +52,31 @@ pub struct ScriptTransport {
 }
 
 impl ScriptTransport {
+    pub fn new(bind_addr: SocketAddr) -> Self {
+        Self {
+            bind_addr,
+            locked: Default::default(),
+        }
+    }
+
+    pub fn push_incoming(&self, datagram: Vec<u8>, from: SocketAddr) {
+        self.locked.lock().incoming.push_back((datagram, from));
+    }
+
+    pub fn incoming_len(&self) -> usize {
+        self.locked.lock().incoming.len()
+    }
+
+    pub fn take_sent_to(&self) -> Vec<(SocketAddr, Vec<u8>)> {
+        std::mem::take(&mut self.locked.lock().sent_to)
+    }
+
+    pub fn script(&self, outcomes: &[SendOutcome]) {
+        let mut g = self.locked.lock();
+        g.script.clear();
+        g.script.extend(outcomes.iter().copied());
+    }
+
     fn send(&self, buf: &[u8]) -> Poll<std::io::Result<usize>> {
         let mut g = self.locked.lock();
         let scripted = g.script.pop_front().unwrap_or(SendOutcome::Sent);
@@ -72,13 +101,24 @@ impl ScriptTransport {
 impl Transport for ScriptTransport {
     fn recv_from<'a>(
         &'a self,
-        _buf: &'a mut [u8],
+        buf: &'a mut [u8],
     ) -> impl Future<Output = std::io::Result<(usize, SocketAddr)>> {
-        std::future::pending()
+        std::future::poll_fn(move |_cx| match self.locked.lock().incoming.pop_front() {
+            Some((d, from)) => {
+                let n = d.len().min(buf.len());
+                buf[..n].copy_from_slice(&d[..n]);
+                Poll::Ready(Ok((n, from)))
+            }
+            None => Poll::Pending,
+        })
     }
 
-    async fn send_to<'a>(&'a self, buf: &'a [u8], _target: SocketAddr) -> std::io::Result<usize> {
-        match self.send(buf) {
+    async fn send_to<'a>(&'a self, buf: &'a [u8], target: SocketAddr) -> std::io::Result<usize> {
+        let r = self.send(buf);
+        if matches!(r, Poll::Ready(Ok(_))) {
+            self.locked.lock().sent_to.push((target, buf.to_owned()));
+        }
+        match r {
             Poll::Ready(r) => r,
             Poll::Pending => Ok(0),
         }
@@ -111,15 +151,28 @@ impl PollSendToVectored for ScriptTransport {
     }
 }
 
-struct VirtEnvLocked {
-    now: Instant,
-    random: VecDeque<u16>,
+pub struct VirtEnvLocked {
+    pub now: Instant,
+    pub random: VecDeque<u16>,
 }
 
 #[derive(Clone)]
 pub struct VirtEnv {
-    base: Instant,
-    locked: Arc<Mutex<VirtEnvLocked>>,
+    pub base: Instant,
+    pub locked: Arc<Mutex<VirtEnvLocked>>,
+}
+
+impl VirtEnv {
+    pub fn new(random: &[u16]) -> Self {
+        let base = Instant::now();
+        VirtEnv {
+            base,
+            locked: Arc::new(Mutex::new(VirtEnvLocked {
+                now: base,
+                random: random.iter().copied().collect(),
+            })),
+        }
+    }
 }
 
 impl UtpEnvironment for VirtEnv {
